@@ -23,17 +23,56 @@ script / control block must be the committed one.
 import itertools
 
 from symx import core, loader, shims
-from symx.core import (SI, SB, SBytes, check, assume, s_and, s_or, s_not, s_implies, norm, conc_value, wrapb, wrap, lift,
+from symx.core import (SI, SB, SBytes, check, s_and, s_or, s_not, norm, wrapb, wrap, lift,
                        b_cmp, b_and, b_or, b_not, n_uf, n_cat, n_byte, const, TRUE, FALSE)
 from vlib.run import Ob, sym_run, merge_runs
 
 PROPERTY = "C06"
 
 META = {
-    "bounds": {},
-    "outside": [],
-    "stubs": [],
-    "assumptions": [],
+    "bounds": {
+        "quick": {
+            "templates": "P2PKH, P2WPKH, P2SH-P2WPKH, P2SH multisig 1-of-1 / 1-of-2 / 2-of-2 / 2-of-3, P2WSH multisig 1-of-2 / 2-of-3, "
+                         "P2SH-P2WSH 1-of-2, P2TR (single-leaf tree: key path and CHECKSIG leaf), P2TR CHECKSIGADD 1-of-2 / 2-of-2 / 2-of-3",
+            "attacker spends (O1)": "332 scriptSig x witness shapes (enumerated sizes): up to n+3 items per side; item lengths from "
+                                    "{0, 1, 2, 22, 33, 34, 64, 65, 71, 72} with every byte symbolic (in shapes with several signature-sized items "
+                                    "the hash-type byte of the 2nd.. is fixed to SIGHASH_ALL), symbolic opcodes from {OP_0, OP_1, OP_NOP, OP_DROP, OP_DUP} "
+                                    "before / between / after the pushes, the genuine redeem / witness / leaf script and control block, the "
+                                    "attacker's own ('foreign') script / control block of the same shape, annex items of 1, 2, 33 bytes; "
+                                    "keys (33-byte compressed SEC resp. 32-byte x-only, pairwise distinct), internal key, outpoint, sequence, "
+                                    "amounts, version in {1,2}, locktime all symbolic; 1 input, plus the proper shapes as input 1 of 2",
+            "library-built spends (O2/O3)": "every signer subset (tapscript: subsets of size <= m) plus a duplicated signer, through sign_input / "
+                                            "get_sig_* / finalize_* / initialize+finalize_p2tr_multisig / sign_p2tr_keypath; O3: the committed "
+                                            "hash / output key replaced by any different value",
+            "DER lemma (O0)": "all byte strings of length 0..13"},
+        "thorough": {"templates": "adds 1-of-3, 3-of-3, 2-of-4, 3-of-5 P2SH, 1-of-1 / 2-of-2 / 3-of-3 / 2-of-4 P2WSH, 2-of-3 P2SH-P2WSH, "
+                                  "1-of-3 / 3-of-3 / 3-of-5 CHECKSIGADD", "attacker spends (O1)": "same shape grammar", "DER lemma (O0)": "length 0..14"}},
+    "outside": ["scripts other than the listed standard templates; taproot trees with more than one leaf (the control block carries no path hashes)",
+                "uncompressed script keys (an attacker-supplied 65-byte key item is in the bound, script keys are compressed)",
+                "elliptic-curve membership of attacker-supplied keys / nonces and degenerate signature values (s = 0 mod N): the real code raises "
+                "there, which cannot turn a rejection into an acceptance",
+                "signatures over a different transaction are covered through the digest argument of the Valid predicate (a signature is only "
+                "assumed / counted valid for the digest it was made for); that every committed field reaches the digest is C05",
+                "fee / relay rule of Tx.verify(); Script.evaluate called directly (the property observes Tx.verify_input)",
+                "tapscript k-of-n signed by more than k keys (CHECKSIGADD .. k EQUAL rejects it by design: not 'the required keys')",
+                "judgement call: a spend that carries valid signatures of m distinct script keys on this transaction is counted authorised even "
+                "when its other items are unusual; a spend presenting a foreign script / control block must be rejected whatever it carries"],
+    "stubs": ["S256Point (inside sbuidl.op / taproot / script only) -> stand-in carrying the key encoding; parse / parse_sec / parse_xonly keep the "
+              "real length and prefix checks",
+              "S256Point.verify(z, sig) -> uninterpreted predicate ValidE(key encoding, z, DER bytes); verify_schnorr(msg, sig) -> "
+              "ValidS(x-only key, msg, 64-byte signature), false for signatures that are not 64 bytes after the hash-type byte is removed",
+              "Signature.parse -> one fork on a closed-form well-formedness predicate, shown equal to the accept set of the real parser by "
+              "obligation O0 (real pecc.Signature.parse on symbolic strings); SchnorrSignature.parse -> length >= 32 and s < N",
+              "S256Point.tweaked_key -> uninterpreted (x, parity) of (x-only key, TapTweak hash)",
+              "PrivateKey (O2/O3 only) -> signer whose sign()/sign_schnorr() return fresh symbolic signatures assumed Valid for its own key on "
+              "the signed digest and for no other script key",
+              "sha256 / ripemd160 uninterpreted on symbolic input, real on concrete input; print() empty"],
+    "assumptions": ["ideal signatures: the solver chooses freely which (key, digest, signature) triples are Valid; one signature is Valid for at most one key",
+                    "collision freeness, asserted per pair of hash calls on a path: equal digests imply equal inputs (also against digests "
+                    "of constants and across input lengths)",
+                    "taproot commitment binding: tweaked_key is injective in (internal key, tweak)",
+                    "script keys are fixed before the spend exists: a script key is neither a SHA-256 image of data in the spend nor a tweaked output key",
+                    "a committed hash / output key is not a script-number zero (probability < 2^-150)"],
 }
 
 MANIFEST = {"technique": "symbolic execution (symx, z3 bit-vectors + uninterpreted functions) of the real Tx.verify_input / Script.evaluate / "
@@ -757,8 +796,10 @@ def attack_path(tmpl, m, n, ss, wit, n_in=1, idx=0):
 
     def wfn(env):
         ssd, wd = sp.describe(env)
+        shaped = [j for (j, it) in cands if t.schnorr or _mval(der_wf(it[:-1]))]
         return {"template": tmpl, "m": m, "n": n, "n_in": n_in, "idx": idx, "scriptsig_shape": ss, "witness_shape": wit,
                 "scriptsig": ssd, "witness": wd, "valid": sorted([j, k] for (j, k), v in vmap.items() if _mval(v)),
+                "sig_shaped": shaped,
                 "tx": dict({v: env[v] for v in TXVARS}, prev=core.bytes_env(env, "prev", 32).hex())}
     if sp.foreign:
         check(False, "a spend presenting a foreign script / control block is accepted", witness=wfn)
@@ -933,10 +974,6 @@ def replay_attack(w):
             "expected": "false or an error"}
 
 
-def replay_attack_kf(w):  # alias kept for known-findings authors: same witness format
-    return replay_attack(w)
-
-
 # ------------------------------------------------------------------------------------------------ O0: the DER stand-in is exact
 
 def _der_lemma_path(n):
@@ -971,7 +1008,7 @@ def replay_der(w):
     try:
         Signature.parse(b)
         ok = True
-    except Exception as e:
+    except Exception:
         ok = False
     return {"violated": ok != bool(der_wf(b)), "observed": f"Signature.parse({b.hex()}) accepted={ok}, stand-in predicate {bool(der_wf(b))}"}
 
@@ -1212,7 +1249,7 @@ QUICK_T = [("p2pkh", 1, 1), ("p2wpkh", 1, 1), ("p2sh-p2wpkh", 1, 1), ("p2sh-ms",
            ("p2wsh-ms", 1, 2), ("p2wsh-ms", 2, 3), ("p2sh-p2wsh-ms", 1, 2), ("p2tr-checksig", 1, 1), ("p2tr-csa", 1, 2), ("p2tr-csa", 2, 2),
            ("p2tr-csa", 2, 3)]
 THOROUGH_T = QUICK_T + [("p2sh-ms", 1, 3), ("p2sh-ms", 3, 3), ("p2wsh-ms", 1, 1), ("p2wsh-ms", 2, 2), ("p2wsh-ms", 3, 3), ("p2sh-p2wsh-ms", 2, 3),
-                        ("p2tr-csa", 1, 3), ("p2tr-csa", 3, 3)]
+                        ("p2tr-csa", 1, 3), ("p2tr-csa", 3, 3), ("p2sh-ms", 2, 4), ("p2sh-ms", 3, 5), ("p2wsh-ms", 2, 4), ("p2tr-csa", 3, 5)]
 
 
 def obligations(tier):
